@@ -95,7 +95,7 @@ func (m c15) Run(ctx *core.Ctx) {
 			m.Exec(ctx, cs)
 		}
 	}
-	n := split(tierN(ctx.Tier, 1_000_000, 25_000_000), ctx.Shard, ctx.NShards)
+	n := split(tierN(ctx.Tier, 1_500_000, 25_000_000), ctx.Shard, ctx.NShards)
 	r := ctx.Rng
 	// several references resolved against ONE reporting-mode base value
 	nb := split(tierN(ctx.Tier, 100_000, 3_000_000), ctx.Shard, ctx.NShards)
